@@ -204,7 +204,7 @@ pub fn check(c: &Case, obs: &mut Obs) -> Result<(), String> {
 
 fn run(ctx: &mut Ctx) {
     let cases = ctx.share(ctx.tier.pick(400_000, 3_000_000));
-    let p = ctx.tier.pick(TreeParams::quick(), TreeParams::thorough());
+    let p = ctx.tier.pick(TreeParams::quick(), TreeParams::thorough()).with_big(1);
     let strat = (arb_path_for(p), vec(any::<u8>(), 0..24), vec(0u64..64, 0..3)).prop_map(|(pc, prefix, offs)| Case { pc, prefix: Bytes(prefix), offs });
     run_strategy(ctx, "C15", "modes", cases, strat, check);
 }
